@@ -486,7 +486,7 @@ func Supervise(spec *PropertySpec, tier string, verifSeed uint64, budgetOverride
 					}
 				case o.memKilled:
 					if infra == "" {
-						infra = fmt.Sprintf("worker %d exceeded the memory cap", o.idx)
+						infra = fmt.Sprintf("worker %d exceeded the memory cap while executing run %d (run seed %d, race binary: %v)", o.idx, o.curRun, o.curSeed, o.race)
 					}
 				case o.exit == 66 && o.race:
 					// the race detector halted the worker: a data race under a deterministic schedule
